@@ -944,13 +944,16 @@ func TestReplay(t *testing.T) {
 	for a := 0; a < n; a++ {
 		var r Result
 		switch {
-		case sc.Stage == "fork.fold/ref" || sc.Stage == "fold/ref" || strings.HasPrefix(sc.Stage, "deleg/"):
+		case sc.Stage == "fork.fold/ref" || sc.Stage == "fold/ref" || strings.HasPrefix(sc.Stage, "deleg/") || strings.HasPrefix(sc.Stage, "reuse/"):
 			f := runFoldRef
 			if sc.Stage == "fold/ref" {
 				f = runPipeFoldRef
 			}
 			if strings.HasPrefix(sc.Stage, "deleg/") {
 				f = runDeleg
+			}
+			if strings.HasPrefix(sc.Stage, "reuse/") {
+				f = runReuse
 			}
 			b := bubble.Run(t, func() { r.Msg = f(&sc) })
 			if r.Msg == "" {
